@@ -927,3 +927,35 @@ Proof.
     split; [apply owner_is_Some; exact O|]. split; [apply N.leb_le; exact Hi|].
     destruct (has_cls K_Builtin e'); [discriminate | reflexivity].
 Qed.
+
+(* ------------------------------------------------------------------ the two scoped statements, both trees *)
+Lemma no_reserved_gen : forall fixr fixp s r s' i e',
+  step fixr fixp s (OSync r) = (ROk, s') ->
+  fixr = true \/ known_reserved s (OSync r) = false ->
+  lookup (s_ents s) i = None -> lookup (s_ents s') i = Some e' ->
+  DYN_MIN <= i /\ has_cls K_Builtin e' = false.
+Proof.
+  intros fixr fixp s r s' i e' H Hk Hl Hl'. destruct (step_ok _ _ _ _ _ H) as [s1 [Ha [He _]]]. cbn [apply_op] in Ha.
+  destruct (sync_apply_rel fixr fixp s r s1 [] true Ha) as (_ & Hr & _).
+  - intros a Hx. discriminate.
+  - intros _. exact Hk.
+  - right. intros _. reflexivity.
+  - specialize (Hr i). rewrite He in Hl'. rewrite Hl, Hl' in Hr. cbn [EOK] in Hr. apply Hr. reflexivity.
+Qed.
+
+Lemma attrs_scoped_gen : forall fixr fixp s r s' i e e' a,
+  step fixr fixp s (OSync r) = (ROk, s') ->
+  fixp = true \/ known_phantom s (OSync r) = false ->
+  lookup (s_ents s) i = Some e -> lookup (s_ents s') i = Some e' -> aget a e <> aget a e' ->
+  mem a SYNCABLE = true /\ mem a (yield_of s (r_agr r)) = false.
+Proof.
+  intros fixr fixp s r s' i e e' a H Hk Hl Hl' Hne.
+  destruct (step_ok _ _ _ _ _ H) as [s1 [Ha [He _]]]. cbn [apply_op] in Ha.
+  destruct (sync_apply_rel fixr fixp s r s1 (yield_of s (r_agr r)) false Ha) as (_ & Hr & _).
+  - auto.
+  - intros Hd. discriminate.
+  - destruct Hk as [Hk|Hk]; [left; exact Hk | right; apply known_phantom_false; exact Hk].
+  - specialize (Hr i). rewrite He in Hl'. rewrite Hl, Hl' in Hr. cbn [EOK] in Hr.
+    destruct Hr as [->|(_ & _ & _ & S & _)]; [contradiction | apply S; exact Hne].
+Qed.
+
